@@ -1423,6 +1423,8 @@ func (h *ResponseHeader) setSpecialHeader(key, value []byte) bool {
 			return true
 		case caseInsensitiveCompare(strConnection, key):
 			if caseInsensitiveCompare(strClose, value) {
+				// Replaces a value stored before, like any other Set.
+				h.h = delAllArgs(h.h, b2s(key))
 				h.SetConnectionClose()
 			} else {
 				h.ResetConnectionClose()
@@ -1487,6 +1489,8 @@ func (h *RequestHeader) setSpecialHeader(key, value []byte) bool {
 			return true
 		case caseInsensitiveCompare(strConnection, key):
 			if caseInsensitiveCompare(strClose, value) {
+				// Replaces a value stored before, like any other Set.
+				h.h = delAllArgs(h.h, b2s(key))
 				h.SetConnectionClose()
 			} else {
 				h.ResetConnectionClose()
